@@ -4,6 +4,7 @@ import (
 	"context"
 	"encoding/json"
 	"fmt"
+	"math"
 	"runtime"
 	"strings"
 	"sync"
@@ -40,6 +41,10 @@ type C10Case struct {
 	Real     bool      `json:"real"`
 	HErrs    []bool    `json:"herrs"`             // cycled: the client's handler returns an error for this notification (must not disturb delivery)
 	Abandon  int       `json:"abandon,omitempty"` // calls of other peers that left in the middle of their event stream, before the calls above start
+	// Late: this many further handlers (methods late/0 .. late/n-1) are registered by another goroutine while the calls above are in
+	// flight; afterwards one more call emits notifications for some of them: a handler whose registration has returned
+	// receives the notifications of every later call, whatever was in flight while it was registered.
+	Late int `json:"late,omitempty"`
 }
 
 var c10Methods = []string{"notifications/progress", "notifications/message", "notifications/custom-a", "custom/b", "x"}
@@ -54,7 +59,7 @@ func genC10(t *rapid.T) C10Case {
 			n = rapid.IntRange(13, 50).Draw(t, "manynotifs")
 		}
 		for j := 0; j < n; j++ {
-			nf := C10Notif{Kind: rapid.SampledFrom([]string{"progress", "log", "custom", "custom", "raw"}).Draw(t, "kind"), Delay: rapid.SampledFrom([]int{0, 0, 0, 1, 2, 5}).Draw(t, "delay")}
+			nf := C10Notif{Kind: rapid.SampledFrom([]string{"progress", "log", "custom", "custom", "raw", "custom", "raw", "bad"}).Draw(t, "kind"), Delay: rapid.SampledFrom([]int{0, 0, 0, 1, 2, 5}).Draw(t, "delay")}
 			if nf.Kind == "custom" || nf.Kind == "raw" {
 				nf.Method = rapid.SampledFrom(c10Methods).Draw(t, "method")
 				tree := map[string]interface{}{}
@@ -87,11 +92,27 @@ func genC10(t *rapid.T) C10Case {
 	if rapid.IntRange(0, 3).Draw(t, "abandon") == 0 {
 		c.Abandon = rapid.IntRange(1, 6).Draw(t, "nabandon")
 	}
+	if rapid.IntRange(0, 2).Draw(t, "late") == 0 {
+		c.Late = rapid.SampledFrom([]int{3, 40, 150, 400}).Draw(t, "nlate")
+	}
 	nh := rapid.IntRange(1, 4).Draw(t, "nherrs")
 	for i := 0; i < nh; i++ {
 		c.HErrs = append(c.HErrs, rapid.IntRange(0, 3).Draw(t, "herr") == 3)
 	}
 	return c
+}
+
+const c10LateCall = 99999
+
+// c10LateIdx: which of the late handlers the final call addresses (first, last and a few between).
+func c10LateIdx(n int) []int {
+	var out []int
+	for _, k := range []int{0, 1, n / 3, n / 2, n - 2, n - 1} {
+		if k >= 0 && k < n && (len(out) == 0 || out[len(out)-1] < k) {
+			out = append(out, k)
+		}
+	}
+	return out
 }
 
 func ntC10(c C10Case) (bool, []string) {
@@ -137,6 +158,14 @@ func execC10(c C10Case) *Failure {
 		if !ok {
 			return nil, fmt.Errorf("no notification sender in context")
 		}
+		if ci == c10LateCall {
+			for _, k := range c10LateIdx(c.Late) {
+				if err := sender.SendCustomNotification(fmt.Sprintf("late/%d", k), map[string]interface{}{"tag": fmt.Sprintf("late-%d", k)}); err != nil {
+					emitErrs.Store(fmt.Sprintf("late-%d", k), err)
+				}
+			}
+			return mcp.NewTextResult("done-late"), nil
+		}
 		if ci >= len(c.Calls) {
 			// the call of a peer that leaves mid-stream: the handler keeps emitting and does not look at the errors
 			for j := 0; j < 8; j++ {
@@ -157,6 +186,15 @@ func execC10(c C10Case) *Failure {
 			pad := strings.Repeat("z", n.Pad)
 			var err error
 			switch n.Kind {
+			case "bad":
+				// a notification that cannot be encoded (a progress ratio with a zero total, a parameter holding a channel): the
+				// sender may refuse it; the handler ignores that and goes on. It is not part of the emitted sequence.
+				if j%2 == 0 {
+					sender.SendProgress(math.NaN(), tag)
+				} else {
+					sender.SendCustomNotification("notifications/custom-a", map[string]interface{}{"tag": tag, "ch": make(chan int)})
+				}
+				continue
 			case "progress":
 				err = sender.SendProgress(float64(j)+0.5, tag+"|"+pad)
 			case "log":
@@ -265,6 +303,28 @@ func execC10(c C10Case) *Failure {
 	}
 	results := make([]done, len(c.Calls))
 	var wg sync.WaitGroup
+	var lateMu sync.Mutex
+	lateSeen := map[int]int{}
+	var lateOrder []int
+	if c.Late > 0 {
+		wg.Add(1)
+		go func() {
+			defer wg.Done()
+			for k := 0; k < c.Late; k++ {
+				k := k
+				lc.C.RegisterNotificationHandler(fmt.Sprintf("late/%d", k), func(n *mcp.JSONRPCNotification) error {
+					lateMu.Lock()
+					lateSeen[k]++
+					lateOrder = append(lateOrder, k)
+					lateMu.Unlock()
+					return nil
+				})
+				if k%8 == 0 {
+					runtime.Gosched()
+				}
+			}
+		}()
+	}
 	for ci := range c.Calls {
 		wg.Add(1)
 		go func(ci int) {
@@ -286,6 +346,28 @@ func execC10(c C10Case) *Failure {
 	}
 	wg.Wait()
 	sseMode := c.Mode.PostSSE()
+	if c.Late > 0 {
+		// every registration has returned: a later call's notifications reach those handlers
+		ctx, cancel := context.WithTimeout(context.Background(), 20*time.Second)
+		req := &mcp.CallToolRequest{}
+		req.Params.Name = "emit"
+		req.Params.Arguments = map[string]interface{}{"call": c10LateCall}
+		res, err := lc.C.CallTool(ctx, req)
+		cancel()
+		if err != nil || len(res.Content) != 1 {
+			f := Failf("C10/result-lost", "%s: the call made after %d handlers were registered during earlier calls failed: %v", c.Mode, c.Late, err)
+			f.Timing = err != nil && isTimeoutText(err.Error())
+			return f
+		}
+		if sseMode {
+			lateMu.Lock()
+			got := fmt.Sprint(lateOrder)
+			lateMu.Unlock()
+			if want := fmt.Sprint(c10LateIdx(c.Late)); got != want {
+				return Failf("C10/late-handler-missed", "%s: %d handlers were registered while %d calls were in flight; a later call emitted notifications for handlers %s, delivered (in order): %s", c.Mode, c.Late, len(c.Calls), want, got)
+			}
+		}
+	}
 	var firstEmitErr error
 	emitErrs.Range(func(k, v interface{}) bool { firstEmitErr = fmt.Errorf("%v: %v", k, v); return false })
 	if firstEmitErr != nil {
@@ -314,7 +396,7 @@ func execC10(c C10Case) *Failure {
 		var want []int
 		if sseMode {
 			for j, n := range call.Notifs {
-				if registered[n.method()] {
+				if registered[n.method()] && n.Kind != "bad" {
 					want = append(want, j)
 				}
 			}
@@ -394,8 +476,14 @@ func execC10(c C10Case) *Failure {
 					return Failf("C10/duplicate-event-id", "%s: event id %q appears %d times on one POST stream of %d events (call %d)", c.Mode, id, n, len(ex.Events), ci)
 				}
 			}
-			if len(ex.Events) != len(c.Calls[ci].Notifs)+1 {
-				return Failf("C10/raw-event-count", "%s: POST stream of call %d carries %d events, %d notifications + 1 result were emitted", c.Mode, ci, len(ex.Events), len(c.Calls[ci].Notifs))
+			good := 0
+			for _, n := range c.Calls[ci].Notifs {
+				if n.Kind != "bad" {
+					good++
+				}
+			}
+			if len(ex.Events) != good+1 {
+				return Failf("C10/raw-event-count", "%s: POST stream of call %d carries %d events, %d notifications + 1 result were emitted", c.Mode, ci, len(ex.Events), good)
 			}
 		}
 	}
